@@ -13,7 +13,7 @@ sleeps, number of re-authentications, bytes that reached the other side in every
 
 Direct oracle (the property's own statement on the real outputs): after a success the stored / delivered bytes are the payload;
 no attempt leaves a partial object visible (directory, service, and the adapter's own exists / list / download afterwards) or a
-temp file behind; fewer transient faults than the retry budget ⇒ success; never more attempts than the budget, persistent faults
+temp file behind; never more attempts than injected faults plus one; fewer transient faults than the retry budget ⇒ success; never more attempts than the budget, persistent faults
 end in an error.  The B2 re-authentication recursion (defect candidate D9) is reported by this oracle with the signature
 `b2:unbounded-reauth:status-<code>`.
 """
@@ -401,13 +401,19 @@ def oracle(case, obs, cfg):
     d9 = [f for f in plan if reauth_class(case, f, cfg)]
     if all_transient and len(plan) < budget and not ok:
         bad.append((f'{pre}:transient-fault-not-masked', f'{len(plan)} transient fault(s) with a budget of {budget} tries, yet the call ended with {obs["outcome"]} after {obs["attempts"]} attempt(s)'))
-    if budget == 0 or obs['attempts'] > budget or obs['outcome'] == 'fuel':
+    if obs['attempts'] > len(plan) + 1 and obs['outcome'] != 'fuel':
+        bad.append((f'{pre}:attempt-without-fault', f'{obs["attempts"]} attempts for {len(plan)} injected fault(s): an attempt failed because of what an earlier step of the client left behind '
+                    f'(outcome {obs["outcome"]}, bytes per attempt {obs.get("received")})'))
+    bound = budget
+    if d9 and cfg.get('reauthLimit') is not None:
+        bound = budget * (cfg['reauthLimit'] + 1)          # requires_auth bounds its rounds: theorem b2_bounded_with_reauth_limit
+    if budget == 0 or obs['attempts'] > bound or obs['outcome'] == 'fuel':
         if d9 and budget:
             code = d9[0]['code']
             bad.append((f'b2:unbounded-reauth:status-{code}', f'{obs["attempts"]}{"+" if obs["outcome"] == "fuel" else ""} attempts, {obs["reauths"]} re-authentications and {obs["sleeps"]} back-off sleeps for '
                         f'{len(plan)} consecutive {code} answers (budget: {budget} tries): every such answer restarts the try counter through requires_auth'))
         else:
-            bad.append((f'{pre}:attempts-exceed-budget', f'{obs["attempts"]} attempts (outcome {obs["outcome"]}) with a budget of {budget} tries'))
+            bad.append((f'{pre}:attempts-exceed-budget', f'{obs["attempts"]} attempts (outcome {obs["outcome"]}) with a bound of {bound} (max_tries = {budget or None})'))
     return bad
 
 
@@ -483,8 +489,25 @@ def gen_cases(r, tier, budgets):
                             c['sink'] = payload_bytes(r, r.choice([0, 2, length, length + 4])).hex()
                             c['file'] = r.random() < 0.3
                         cases.append(c)
+    # persistent faults: far more repetitions than any budget (the run must end in an error long before the plan is used up)
+    for backend in ('local', 's3', 'b2'):
+        for direction in ('up', 'down'):
+            chunk, length = 4, 14
+            data = payload_bytes(r, length)
+            if backend == 'local':
+                kinds = [{'kind': 'pre'}, {'kind': 'mid', 'j': 2}, {'kind': 'rename'} if direction == 'up' else {'kind': 'sink', 'j': 1}]
+            else:
+                kinds = [{'kind': 'pre'}, {'kind': 'mid', 'j': 2} if direction == 'up' else {'kind': 'cut', 'k': 9}, {'kind': 'status', 'code': 429},
+                         {'kind': 'status', 'code': 503}, {'kind': 'status', 'code': 401 if backend == 'b2' else 404}]
+            for f in kinds:
+                c = {'backend': backend, 'dir': direction, 'data': data.hex(), 'chunk': chunk, 'plan': [f] * (LIMIT + 5), 'wrap': 'tqdm'}
+                if direction == 'up':
+                    c['old'] = payload_bytes(r, 3).hex()
+                else:
+                    c['sink'] = payload_bytes(r, 20).hex()
+                cases.append(c)
     # mixed plans: different kinds / positions in one plan, lengths around the budget
-    n_mixed = 500 if quick else 6000
+    n_mixed = 1500 if quick else 20000
     for _ in range(n_mixed):
         backend = r.choice(['local', 's3', 'b2', 'b2'])
         direction = r.choice(['up', 'down'])
@@ -622,7 +645,7 @@ def run(out, drv, info):
             out.count(f'{case["backend"]}:{case["dir"]}')
             for f in case['plan'][:1]:
                 out.count('first-fault:' + f['kind'] + (':%d' % f['code'] if f['kind'] == 'status' else ''))
-            out.count('plan-length:' + ('0' if not case['plan'] else '<budget' if len(case['plan']) < budgets[case['backend']] else '>=budget'))
+            out.count('plan-length:' + ('0' if not case['plan'] else '<budget' if len(case['plan']) < budgets[case['backend']] else 'persistent' if len(case['plan']) > LIMIT else '>=budget'))
             out.count('outcome:' + obs['outcome'])
             out.count('position:' + ('inside' if nontrivial else 'edge'))
             evaluate(case, obs, m, cfg, out)
